@@ -222,6 +222,18 @@ pub fn generate(tier: &str, rng: &mut Prng) -> Vec<Case> {
                 }
             }
         }
+        // one valid (salt, s2) pair checked against its own message and then against other messages of the same length:
+        // the hash must be recomputed from salt || message every time
+        for _ in 0..(if thorough { 12 } else { 2 }) {
+            if let Some((m, s, p)) = exact_norm_triple(rng, n, bound(n) - 1000, 0) {
+                push(&mut ops, n, &m, &s, &p);
+                for _ in 0..2 {
+                    let other = rng.bytes(m.len().max(1));
+                    push(&mut ops, n, &other, &s, &p);
+                }
+                push(&mut ops, n, &m, &s, &p);
+            }
+        }
         // unary runs long enough to wrap a 16-bit composition of the magnitude (512 zeros: 512 << 7 = 2^16): the
         // specification rejects (and so does the cap); a decoder that lets the run through sees a small coefficient, for which
         // the key below makes the norm tiny
